@@ -10,9 +10,12 @@
    clause); [state_ok] the Prop; [state_code_ok] connects them. [wf_op] is the informer
    discipline under which the property is claimed (boolean, evaluated on the model state). *)
 From Coq Require Import List ZArith Bool Lia.
-From Verif Require Import Lib.Vec2 C01.Model.
+From Verif Require Import Lib.VecN C01.Model.
 Import ListNotations.
 Open Scope Z_scope.
+
+Section WithDim.
+Context {D : Dim}.
 
 (* ---------- from-scratch recomputation ---------- *)
 
@@ -179,3 +182,5 @@ Definition qshape_eqb (a b : qshape) : bool :=
 Definition shapes_eqb (got want : list qshape) : bool :=
   Nat.eqb (length got) (length want)
   && forallb (fun q => match find want (q_name q) with Some q' => qshape_eqb q q' | None => false end) got.
+
+End WithDim.
